@@ -1311,6 +1311,8 @@ pub struct E2eCfg {
     /// device back-pressure: percentage of polls in which the device hands out only 0, 1 or 2
     /// transmit tokens (replenished before the next poll); 0 = the device always accepts frames
     pub bp: u64,
+    /// Config.slaac = true on both interfaces (Ethernet; link-local addresses; no router answers)
+    pub slaac: bool,
     /// competing traffic: percentage of delivered frames that are accompanied by an ICMP echo
     /// request, which the interface answers by itself (and which uses up transmit tokens)
     pub ping: u64,
@@ -1336,6 +1338,7 @@ impl E2eCfg {
         put("probe", (self.probe as u8).to_string());
         put("ecl", (self.ecl as u8).to_string());
         put("bp", self.bp.to_string());
+        put("slaac", (self.slaac as u8).to_string());
         put("ping", self.ping.to_string());
         for (i, e) in self.ep.iter().enumerate() {
             let s = if i == 0 { "a" } else { "b" };
@@ -1422,6 +1425,7 @@ impl E2eCfg {
             probe: gu("probe") != 0,
             ecl: c.get_i("ecl", 0) != 0,
             bp: c.get_i("bp", 0) as u64,
+            slaac: c.get_i("slaac", 0) != 0,
             ping: c.get_i("ping", 0) as u64,
         }
     }
@@ -1605,6 +1609,7 @@ pub fn gen_e2e(rng: &mut Rng, id: String, tier: &str) -> E2eCfg {
         probe: rng.chance(1, 3),
         ecl: rng.chance(1, 12),
         bp: 0,
+        slaac: false,
         ping: 0,
     };
     // device back-pressure and competing traffic in a third of the schedules
@@ -1629,6 +1634,16 @@ pub fn gen_e2e(rng: &mut Rng, id: String, tier: &str) -> E2eCfg {
         0 => c.ep[rng.below(2) as usize].ck = 1,
         1 => c.ep[rng.below(2) as usize].ck = 2,
         _ => {}
+    }
+    // SLAAC enabled on a link without router (Ethernet): three router solicitations at 0 / 4 / 8 s, then
+    // SLAAC has nothing scheduled any more; the connection is kept busy past that instant
+    if rng.chance(1, 6) {
+        c.slaac = true;
+        c.eth = true;
+        if c.ep[0].close == CloseMode::Done {
+            c.ep[0].close = CloseMode::At(rng.range(8500, 14000));
+        }
+        c.chaos_ms = c.chaos_ms.max(*rng.pick(&[300i64, 9000, 20000]));
     }
     c
 }
@@ -1722,11 +1737,18 @@ fn ep_addr(v6: bool, side: usize) -> IpAddress {
 }
 
 pub fn make_iface(eth: bool, v6: bool, ip_mtu: usize, side: usize, random_seed: u64) -> (Interface, QDev, IpAddress) {
-    make_iface_caps(eth, v6, ip_mtu, side, random_seed, 0, 0)
+    make_iface_caps(eth, v6, ip_mtu, side, random_seed, 0, 0, false)
+}
+
+/// the link-local address an endpoint gets when SLAAC is enabled
+pub fn link_local_addr(side: usize) -> IpAddress {
+    IpAddress::Ipv6(Ipv6Address::new(0xfe80, 0, 0, 0, 0, 0, 0, side as u16 + 1))
 }
 
 /// `burst`: max_burst_size (0 = None); `ck`: 0 = Checksum::Both, 1 = Tx, 2 = Rx for every protocol
-pub fn make_iface_caps(eth: bool, v6: bool, ip_mtu: usize, side: usize, random_seed: u64, burst: usize, ck: u8) -> (Interface, QDev, IpAddress) {
+/// `slaac`: Config.slaac = true and a link-local IPv6 address (Ethernet only: router solicitations
+/// carry the hardware address); there is no router on the simulated link
+pub fn make_iface_caps(eth: bool, v6: bool, ip_mtu: usize, side: usize, random_seed: u64, burst: usize, ck: u8, slaac: bool) -> (Interface, QDev, IpAddress) {
     use smoltcp::phy::{Checksum, ChecksumCapabilities};
     let medium = if eth { Medium::Ethernet } else { Medium::Ip };
     let mut dev = QDev::new(medium, ip_mtu + if eth { 14 } else { 0 });
@@ -1744,10 +1766,14 @@ pub fn make_iface_caps(eth: bool, v6: bool, ip_mtu: usize, side: usize, random_s
     let hw = if eth { HardwareAddress::Ethernet(EthernetAddress([2, 0, 0, 0, 0, side as u8 + 1])) } else { HardwareAddress::Ip };
     let mut c = Config::new(hw);
     c.random_seed = random_seed;
+    c.slaac = slaac && eth;
     let mut iface = Interface::new(c, &mut dev, Instant::ZERO);
     let addr = ep_addr(v6, side);
     iface.update_ip_addrs(|a| {
         a.push(IpCidr::new(addr, if v6 { 64 } else { 24 })).unwrap();
+        if slaac && eth {
+            a.push(IpCidr::new(link_local_addr(side), 64)).unwrap();
+        }
     });
     (iface, dev, addr)
 }
@@ -1770,13 +1796,12 @@ fn make_socket(e: &EpCfg) -> tcp::Socket<'static> {
 }
 
 fn make_ep(cfg: &E2eCfg, side: usize) -> Ep {
-    let (iface, dev, addr) = make_iface_caps(cfg.eth, cfg.v6, cfg.mtu, side, cfg.ep[side].rs, cfg.ep[side].burst, cfg.ep[side].ck);
+    let (iface, dev, addr) = make_iface_caps(cfg.eth, cfg.v6, cfg.mtu, side, cfg.ep[side].rs, cfg.ep[side].burst, cfg.ep[side].ck, cfg.slaac);
     let mut sockets = SocketSet::new(vec![]);
     let h = sockets.add(make_socket(&cfg.ep[side]));
     let mut own = vec![addr];
-    if cfg.v6 && cfg.eth {
-        // link-local addresses are not configured; nothing else is ours
-        own.truncate(1);
+    if cfg.slaac && cfg.eth {
+        own.push(link_local_addr(side));
     }
     Ep {
         name: if side == 0 { 'A' } else { 'B' },
@@ -2477,6 +2502,7 @@ impl E2e {
         self.out.bump("runs_cc_cubic", cc(2));
         self.out.bump("runs_window_scaling", cfg.ep.iter().any(|e| e.rx > 65535) as u64);
         self.out.bump("runs_tiny_rx_buffer", cfg.ep.iter().any(|e| e.rx < 64) as u64);
+        self.out.bump("runs_slaac", cfg.slaac as u64);
         self.out.bump("runs_max_burst", cfg.ep.iter().any(|e| e.burst != 0) as u64);
         self.out.bump("runs_checksum_tx_only", cfg.ep.iter().any(|e| e.ck == 1) as u64);
         self.out.bump("runs_checksum_rx_only", cfg.ep.iter().any(|e| e.ck == 2) as u64);
@@ -2658,7 +2684,7 @@ impl RxSim {
         let v6 = c.get("ipv") == Some("6");
         let ip_mtu = gi("mtu", 1500) as usize;
         let rs: u64 = c.get("rs").map(|v| v.parse().expect("rs")).unwrap_or(1);
-        let (iface, dev, sock_addr) = make_iface_caps(false, v6, ip_mtu, 0, rs, gi("burst", 0) as usize, 0);
+        let (iface, dev, sock_addr) = make_iface_caps(false, v6, ip_mtu, 0, rs, gi("burst", 0) as usize, 0, false);
         let e = EpCfg {
             rx: gi("rx", 64) as usize,
             tx: gi("tx", 64) as usize,
